@@ -183,7 +183,7 @@ func genRuleLine(rng *Rng, hostile bool) string {
 	case k < 8:
 		return "# comment " + rng.Pick(ignNames)
 	case hostile && k < 12:
-		return rng.Pick([]string{" ", "\t", "  \t ", "!", " ! ", "!/", "/", "//", "\\", "a\\", "**", "***", "a**b", "**a", "a**", "*/", "/*", "a(b", "a+b", "[ab]", "a|b", "^a", "a$", "\\d", "a\\*b", "{a,b}"})
+		return rng.Pick([]string{" ", "\t", "  \t ", "!", " ! ", "!/", "/", "//", "\\", "a\\", "**", "***", "a**b", "**a", "a**", "*/", "/*", "a(b", "a+b", "[ab]", "a|b", "^a", "a$", "\\d", "a\\*b", "{a,b}", "a[b", "[", "notes[draft.md", "x.tf[", "\ufeff", "\ufeff*.log", "\ufeff ", "terraform.tfstate*", "x.tf*", "a*"})
 	}
 	n := 1 + rng.Intn(3)
 	var segs []string
